@@ -9,7 +9,7 @@
 Not decided: Pack/Unpack nibble packing (loop on a symbolic value), float/half conversion values."""
 import os, re
 from ..report import Run, Finding, rel
-from ..common import lib_module, configs_for, need_fn
+from ..common import lib_module, configs_for, need_fn, with_helpers_inlined
 from ..build import AnalysisBroken, compile_only, VERIF
 from ..core import World
 from ..bounds import Bounds
@@ -190,15 +190,22 @@ def d3(mod, run, w):
     return n
 
 
-def d4(mod, run, w):
+def d4(mod, run, w, cfg=None):
     n = 0
     for name in ("varintDimensionPairEntrySetBit", "varintDimensionPairEntryGetBit", "varintDimensionPairEntryToggleBit"):
         need_fn(mod, name)
         isset = name.endswith("SetBit")
-        eng = E2(mod, sym_args={1: "row", 2: "col", (4 if isset else 3): "dim"}, known_bits={3: 1} if isset else {})
-        eng.pure = {nn for nn, s in w.pts.summ.items() if not s.mod}
-        try: paths = eng.run(name)
-        except Unsupported as e: raise AnalysisBroken("E2: %s unsupported: %s" % (name, e))
+        def interp(mod_, w_):
+            eng_ = E2(mod_, sym_args={1: "row", 2: "col", (4 if isset else 3): "dim"}, known_bits={3: 1} if isset else {})
+            eng_.pure = {nn for nn, s in w_.pts.summ.items() if not s.mod}
+            return eng_, eng_.run(name)
+        try: eng, paths = interp(mod, w)
+        except Unsupported as e:
+            # e.g. a file-local helper that returns the byte offset and mask as a small struct: interpret the accessor with it inlined
+            m2, _f2 = with_helpers_inlined(mod, mod.fn(name), cfg) if cfg else (None, None)
+            if m2 is None: raise AnalysisBroken("E2: %s unsupported: %s" % (name, e))
+            try: eng, paths = interp(m2, World(m2))
+            except Unsupported as ex2: raise AnalysisBroken("E2: %s unsupported: %s (with helpers inlined: %s)" % (name, e, ex2))
         for p in paths:
             n += 1
             res8 = [c for c in p.cases if isinstance(c[1], int) and c[1] == 8]
@@ -256,7 +263,7 @@ def run(tier):
     for cfg in configs_for(tier):
         mod = lib_module(cfg); w = World(mod)
         d2(mod, run, w)
-        n3 = d3(mod, run, w); n4 = d4(mod, run, w)
+        n3 = d3(mod, run, w); n4 = d4(mod, run, w, cfg)
         per[cfg] = {"offset_paths": n3, "bit_cell_cases": n4}
         run.floor("getEntryByteOffset paths (%s)" % cfg, n3, 16)
         run.floor("bit-cell cases (%s)" % cfg, n4, 24)
